@@ -69,7 +69,7 @@ def run(ctx: Context) -> None:
     ctx.rule('R17.2', "writer within reader grammar: the offset is written as an explicit sign chosen by `offset < 0`, then two-digit zero padded non-negative hours, ':', two-digit minutes; the unit string is '<period> since %Y-%m-%d %H:%M:%S <offset>' with the epoch expressed in that same offset", floor=5)
     ctx.rule('R17.3', "the re-parse comparison dominates the return and its failure raises", floor=2)
     ctx.rule('R17.4', "to_netcdf_with_fixes works on a shallow copy, suppresses default fill values on the copy before writing, and rewrites the time units after the write and only when a time variable is given; the suppression never overrides an existing _FillValue", floor=7)
-    ctx.rule('R17.5', "exception agreement: time_coordinate raises NoSuchCoordinateError and every handler around it names one of its ancestors; the save method forwards dataset, path and options", floor=6)
+    ctx.rule('R17.5', "exception agreement: time_coordinate raises NoSuchCoordinateError and every handler around it names one of its ancestors; the save method forwards dataset, path and options; the time variable is discovered by its decoded units alone", floor=7)
     ctx.assume("cftime 1.6.5 accepts a colon separated time zone designator only as [+-]HH:MM (checked once against the installed version; '+8:00' and '-0:30' are read as offset 0)")
     ctx.assume("NOT decided: identity of values and polygons after the netCDF round trip (xarray / netCDF4 at run time)")
 
@@ -213,13 +213,16 @@ def run(ctx: Context) -> None:
                   construct='disable_default_fill_value(...) dominates to_netcdf(...)')
         ok_path = bool(wr.args) and tflow.canon(wr.args[0]) == ('param', tn.params[1]) and any(k.arg is None for k in wr.keywords)
         ctx.check('R17.4', ok_path, "the file is written to the caller's path with the caller's options", tn, wr)
-        g = [(norm_text(st.test), inb) for st, inb in enclosing_ifs(tn, fx)]
-        ok_fix = ((f"{tn.params[2]} is not None", True) in g and tcfg.dominates(stmt_of(tn, wr), stmt_of(tn, fx))
+        from .common import positive_conditions
+        g = [(norm_text(t), pol) for t, pol in positive_conditions(tn, fx)]
+        # exactly "a time variable was given": any further condition lets a file keep units EMS cannot read
+        ok_fix = (g == [(f"{tn.params[2]} is None", False)] and tcfg.dominates(stmt_of(tn, wr), stmt_of(tn, fx))
                   and len(fx.args) == 2 and tflow.canon(fx.args[0]) == ('param', tn.params[1]))
         nm = tflow.resolve(fx.args[1]) if len(fx.args) == 2 else None
         ok_nm = (isinstance(nm, ast.Call) and callee(ctx, tn, nm) == f"{UTILS}.data_array_to_name" and len(nm.args) == 2
                  and tflow.canon(nm.args[1]) == ('param', tn.params[2]))
-        ctx.check('R17.4', ok_fix and ok_nm, "the time units of the given time variable are rewritten in the written file, after the write, only when a time variable is given", tn, fx)
+        ctx.check('R17.4', ok_fix and ok_nm, "the time units of the given time variable are rewritten in the written file, after the write, exactly when a time variable is given", tn, fx,
+                  construct=f"fix_time_units_for_ems(...) under {g}")
         dd = ctx.func(f"{UTILS}.disable_default_fill_value")
         sets = [n for n in ast.walk(dd.node) if isinstance(n, ast.Assign) and isinstance(n.targets[0], ast.Subscript)
                 and const_value(n.targets[0].slice, None) == '_FillValue']
@@ -281,6 +284,31 @@ def run(ctx: Context) -> None:
             ok = bool(raises) and all(n.rsplit('.', 1)[-1] == 'NoSuchCoordinateError' for n in names)
             ctx.check('R17.5', ok, "a missing time coordinate is reported as NoSuchCoordinateError", tc, raises[0] if raises else tc.node,
                       construct=f"{tc.short} raises {sorted(set(names))}")
+        # discovery criteria of the generic time coordinate: nothing but "decoded from '<unit> since <epoch>'"
+        gtc = ctx.func(f"{BASE}.time_coordinate")
+        gflow = ctx.flow(gtc)
+        from .common import positive_conditions
+        for r in gtc.returns():
+            var_c = gflow.canon(r.value)
+            kinds = []
+            for t, pol in positive_conditions(gtc, r):
+                k = 'other: ' + norm_text(t)
+                if isinstance(t, ast.Compare) and len(t.ops) == 1 and pol is True:
+                    left, right = t.left, gflow.resolve(t.comparators[0])
+                    if isinstance(t.ops[0], ast.In) and const_value(left, None) == 'units' and isinstance(right, ast.Attribute) and right.attr == 'encoding' \
+                            and gflow.canon(right.value) == var_c:
+                        k = 'has-units'
+                    elif isinstance(t.ops[0], ast.In) and const_value(left, None) == 'since' and isinstance(right, ast.Subscript) and const_value(right.slice, None) == 'units' \
+                            and isinstance(gflow.resolve(right.value), ast.Attribute) and gflow.resolve(right.value).attr == 'encoding':
+                        k = 'units-since'
+                    elif isinstance(t.ops[0], ast.Eq) and 'datetime64' in norm_text(right) and norm_text(gflow.resolve(left)).endswith('.dtype.type'):
+                        k = 'is-datetime'
+                elif isinstance(t, ast.BoolOp):
+                    continue        # the conjunction itself; its conjuncts are listed separately
+                kinds.append(k)
+            ctx.check('R17.5', sorted(kinds) == ['has-units', 'is-datetime', 'units-since'],
+                      "the time variable is recognised by exactly: units in its encoding, of the form '... since ...', decoded to datetime64 (whatever its rank or position)",
+                      gtc, r, construct=f"time_coordinate returns a variable under {sorted(kinds)}")
         sites = []
         for f in list(p.functions.values()):
             if not f.qualname.startswith('emsarray.') or f.parent is not None:
